@@ -75,6 +75,8 @@ type TRScenario struct {
 	// HTTPFault: "", roundtrip_err, status_5xx, truncate_body, body_read_err, rewrite_types_hash
 	HTTPFault  string `json:"http_fault,omitempty"`
 	FaultCache string `json:"fault_cache,omitempty"` // importer cache name the fault applies to ("" = all)
+	// Importers > 1: that many importers (same cache names) import concurrently from one Export handler.
+	Importers int `json:"importers,omitempty"`
 
 	// index
 	Index *IndexScenario `json:"index,omitempty"`
